@@ -195,7 +195,7 @@ def lean_skel(name, sk):
             % (name, lst(sk["run"]), lean_str(sk["serialPred"]), lean_str(sk["nthreads"]), lst(sk["chunking"])))
 
 
-HEADER = """-- GENERATED by tools/sync_skeleton.py from %s — do not edit; regenerated on every run
+HEADER = """-- GENERATED by tools/sync_skeleton.py from $AMGCL_REPO/amgcl/relaxation/{gauss_seidel.hpp,detail/ilu_solve.hpp}%s — do not edit; regenerated on every run
 import Amgcl.Model.Schedule
 /-! Loop/pragma skeleton of the level-scheduled kernels as found in the sources, and the obligation that it is the
 skeleton the C09 theorems are about (`Amgcl.Sched.gsExpectedSkeleton`, `iluExpectedSkeleton`). -/
@@ -214,7 +214,7 @@ def main():
                       r"params\s*\(\s*\)\s*:\s*(serial\s*\([^{;]*?\))\s*\{")
     except (ParseError, OSError, ValueError) as e:
         with open(OUT, "w") as f:
-            f.write(HEADER % REPO)
+            f.write(HEADER % "")
             f.write("\n-- PARSE FAILURE: %s\n" % str(e).replace("\n", " "))
             f.write("/-- the sources could not be parsed: this obligation is deliberately not dischargeable -/\n")
             f.write("theorem gs_skeleton_ok : (0 : Nat) = 1 := by decide\n")
@@ -222,7 +222,7 @@ def main():
             f.write("end Amgcl.Generated.SyncSkeleton\n")
         print("sync_skeleton: PARSE FAILURE: %s" % e)
         return 1
-    txt = HEADER % REPO
+    txt = HEADER % ""
     txt += "\n" + lean_skel("gsExtracted", gs) + "\n" + lean_skel("iluExtracted", ilu) + "\n"
     txt += "theorem gs_skeleton_ok : gsExtracted = Amgcl.Sched.gsExpectedSkeleton := by decide\n"
     txt += "theorem ilu_skeleton_ok : iluExtracted = Amgcl.Sched.iluExpectedSkeleton := by decide\n\n"
